@@ -50,6 +50,9 @@ Accept(e) ==
          THEN e.ok = WriteOk(e.pkt, rtx[Key(e.s)]) /\ (e.ok => e.fwd)
          ELSE e.ok /\ e.fwd
     [] e.a = "add" -> e.ok = WriteOk(e.pkt, rtx[Key(0)])
+    \* a Write that was held inside the transport's writer (its "write" event was logged when the packet reached the
+    \* transport - from then on it counts as sent, so a NACK answered meanwhile must find it) has returned
+    [] e.a = "wrelease" -> e.ok
     [] e.a = "jobstart" -> e.found = Bound(jobs[e.j].s)
     [] e.a = "jobget" ->
          /\ jobs[e.j].todo # <<>> /\ Head(jobs[e.j].todo) = e.n
